@@ -103,8 +103,9 @@ RULE = ("E2: breadth-first search over ALL operation histories on a real behave.
         "also an active one and 'testrun', <= 4 frames; pop; end; add_cleanup(fresh function) to the current frame or "
         "layer=each of the 4 names} to length 6 (thorough 7), cross-checked without deduplication to length 4 (the model "
         "resolves layer= to the innermost LIVE frame of that name); E3 registrations (<= 2) on 5 stack shapes with a "
-        "repeated name; real runs in which a step opens scoped_context_layer(<active name>) or runs another scenario as "
-        "sub-scenario and registers layer=<name> cleanups inside / after it. Format-hostile text: 2..3 cleanups of one form in the "
+        "repeated name or an unnamed frame; real runs in which a step opens scoped_context_layer(<active name>), an UNNAMED "
+        "scoped_context_layer(context), or runs another scenario as sub-scenario and registers layer=<name> cleanups "
+        "inside / after it. Unnamed layers (push(None)) are part of that search's alphabet: never the target of layer=. Format-hostile text: 2..3 cleanups of one form in the "
         "innermost frame of 4 stack shapes x every non-empty raising subset x exception message in {plain, '{}', '{0}', "
         "'{x}', '}', '{', '%s', '%d %(a)s', '100%', non-ASCII, a dict repr} x cleanup callable {def, __name__ with "
         "braces, __name__ with percent signs, functools.partial, callable object, lambda} x {default, custom} "
@@ -153,7 +154,9 @@ PROFILES = {
     "deep": (False, ("x",), "narrow", ("gen", "twoyield"), False),
     # duplicate layer names: ANY layer name (also one that is already active, also "testrun") may be pushed,
     # up to 4 frames; add_cleanup of a fresh plain function to the current frame or layer=<every name>.
-    # Reference model: the innermost live frame with that name.
+    # Reference model: the innermost live frame with that name.  Unnamed layers (push(None)) are mixed in:
+    # an unnamed frame carries no name and is never the target of a layer= lookup; a plain add_cleanup goes
+    # to the current (possibly unnamed) frame.
     "dup": (False, (), "dup", (), False),
 }
 
@@ -367,7 +370,7 @@ def enabled(m, profile):
     dup = cleanups == "dup"
     if dup:
         if len(m.frames) < 4:
-            for l in NEST:
+            for l in NEST + (None,):        # None: an UNNAMED layer (_push() / scoped_context_layer(ctx) without name)
                 ops.append(("push", l))
     else:
         for l in NEXT_LAYERS[top]:
@@ -1262,7 +1265,10 @@ FORMS = ("plain", "args", "kwargs")
 
 
 DUP_SHAPES = (("testrun", "testrun"), ("testrun", "feature", "testrun"), ("testrun", "feature", "feature"),
-              ("testrun", "scenario", "rule", "scenario"), ("testrun", "feature", "scenario", "scenario"))
+              ("testrun", "scenario", "rule", "scenario"), ("testrun", "feature", "scenario", "scenario"),
+              # unnamed layers (None): never the target of layer=NAME
+              ("testrun", None), ("testrun", "feature", None), ("testrun", "feature", "scenario", None),
+              ("testrun", "feature", None, "scenario"), ("testrun", None, None))
 ALL_SHAPES = SHAPES + DUP_SHAPES
 
 
@@ -1273,6 +1279,8 @@ def reg_options(si):
     for form in FORMS + ("fx",):
         opts.append((top, "cur", form))
     for fi in range(len(shape)):
+        if shape[fi] is None:
+            continue                # an unnamed frame cannot be addressed with layer=
         for form in FORMS:
             opts.append((fi, "layer", form))
     return opts
@@ -2355,6 +2363,11 @@ def dup_run_cases():
             yield ("scoped", layer, when)
     for layer in ("scenario", "feature", "testrun"):
         yield ("sub-scenario", layer, "after")
+    # an UNNAMED temporary scope (scoped_context_layer(context)): layer=<name> from inside it still means
+    # the enclosing named layer, so the cleanup runs when THAT layer ends, not with the temporary scope
+    for layer in NEST:
+        for when in ("inside", "both"):
+            yield ("unnamed", layer, when)
 
 
 def dup_run_case(case):
@@ -2389,6 +2402,11 @@ def dup_run_case(case):
             with scoped_context_layer(context, layer):
                 if when in ("inside", "both"):
                     register(context, "inside")
+                events.append(("inner-scope-ends",))
+        elif how == "unnamed":
+            with scoped_context_layer(context):
+                register(context, "inside")
+                context.add_cleanup(cleanup, "temporary-scope")        # goes to the unnamed frame itself
                 events.append(("inner-scope-ends",))
         else:
             events.append(("sub-scenario-starts",))
@@ -2428,18 +2446,26 @@ def dup_run_case(case):
     # ---- expected events (model: layer=<name> is the innermost live frame of that name)
     live_outer = layer != "rule"            # this feature has no rule: outside the nested scope no "rule" layer is live
     want = []
+    ran_named = []          # cleanups owned by the enclosing layer NAMED `layer`, in registration order
     if how == "scoped":
         if when in ("inside", "both"):
             want.append(("registered", "inside"))
         want.append(("inner-scope-ends",))
         if when in ("inside", "both"):
             want.append(("cleanup", "inside"))
+    elif how == "unnamed":
+        want.append(("registered", "inside") if live_outer else ("LookupError", "inside"))
+        want += [("inner-scope-ends",), ("cleanup", "temporary-scope")]
+        if live_outer:
+            ran_named.append(("cleanup", "inside"))
     else:
         want += [("sub-scenario-starts",), ("noop",), ("after_scenario", u"S2"), ("sub-scenario-ended",)]
     after = when in ("after", "both")
     if after:
         want.append(("registered", "after") if live_outer else ("LookupError", "after"))
-    ran_after = [("cleanup", "after")] if (after and live_outer) else []
+    if after and live_outer:
+        ran_named.append(("cleanup", "after"))
+    ran_after = list(reversed(ran_named))
     want += [("noop",), ("after_scenario", u"S1")] + (ran_after if layer == "scenario" else [])
     want += [("noop",), ("after_scenario", u"S2"), ("after_feature",)] + (ran_after if layer == "feature" else [])
     want += [("after_all",)] + (ran_after if layer == "testrun" else [])
@@ -2450,7 +2476,7 @@ def dup_run_case(case):
         cls = "refused" if [e for e in got if e[0] != "registered"] != [e for e in want if e[0] == "LookupError"] \
             else "ran-at-the-wrong-scope-end"
         v.append(({"subcheck": "duplicate-layer-runs", "clause": "layer-lookup", "kind": cls,
-                   "inner_scope": "ended" if after else "live"},
+                   "inner_scope": ("unnamed-" if how == "unnamed" else "") + ("ended" if after else "live")},
                   "%s: events %r, expected %r" % (where, events, want)))
     elif failed or any(st != "passed" for st in statuses):
         v.append(({"subcheck": "duplicate-layer-runs", "clause": "status"},
